@@ -21,18 +21,18 @@ def cases(tier, seed=0):
             dims = dims + ([(3, 3)] if ident else [(3, 1), (1, 3), (3, 2), (2, 3)])
         for (Dx, Dy) in dims:
             for (Rc, N) in [(1, 1), (1, 2), (2, 2)] + ([(1, 3), (3, 3)] if tier == "thorough" else []):
-                if kind == "nncontrol" and Rc > 1:
+                if kind == "nncontrol" and Rc > 2:
                     continue
                 out.append(make_case(PROP, "sety", kind, Dx, Dy, Rc, 1, N=N, timeout=400))
             # prior x likelihood factors (multiply / log_integral)
             if Dx + Dy <= 3 or tier == "thorough":
-                semi = () if Dx + Dy <= 3 else ("Sx",)
-                out.append(make_case(PROP, "sety_ops", kind, Dx, Dy, 1, 1, N=2, semi=semi, timeout=600))
+                semi = () if Dx + Dy <= 3 else (("Sx",) if Dx + Dy == 4 else ("Sx", "Sy"))
+                out.append(make_case(PROP, "sety_ops", kind, Dx, Dy, 1, 1, N=2, semi=semi, timeout=1500))
     for kind in KINDS:
         dd = (2, 2) if kind.startswith("identity") else (2, 1)
         for var in CTOR_VARIANTS:
             if (kind == "nncontrol" and var in (("viaL",), ("viaSL",))) or var[0].startswith("px"):
                 continue
             out.append(make_case(PROP, "sety", kind, dd[0], dd[1], 1, 1, N=2, semi=var, timeout=600))
-            out.append(make_case(PROP, "sety", kind, 1, 1, 1 if kind == "nncontrol" else 2, 1, N=2, semi=var, timeout=600))
+            out.append(make_case(PROP, "sety", kind, 1, 1, 2, 1, N=2, semi=var, timeout=600))
     return out
